@@ -502,9 +502,22 @@ class Interp:
             return self.bi.call_extern(f, args, kwargs, node, fr)
         if isinstance(f, LambdaV):
             lam = f.node
-            loc = dict(f.frame.locals)
-            for a, v in zip(lam.args.args, args):
-                loc[a.arg] = v
+            loc = dict(f.frame.locals)                      # free variables: looked up when called (late binding)
+            params = [x.arg for x in lam.args.posonlyargs + lam.args.args]
+            if len(args) > len(params):
+                self.raise_exc("TypeError", [Str.lit("too many arguments for lambda")], node, fr)
+            bound = dict(zip(params, args))
+            for k, v in kwargs.items():
+                if k in bound or k not in params + [x.arg for x in lam.args.kwonlyargs]:
+                    self.raise_exc("TypeError", [Str.lit(f"lambda got an unexpected or repeated argument {k}")], node, fr)
+                bound[k] = v
+            for prm in params + [x.arg for x in lam.args.kwonlyargs]:
+                if prm not in bound:
+                    if prm in f.defaults:
+                        bound[prm] = f.defaults[prm]
+                    else:
+                        self.raise_exc("TypeError", [Str.lit(f"lambda missing argument {prm}")], node, fr)
+            loc.update(bound)
             return self.eval(lam.body, Frame(f.frame.module, f.frame.func, loc, f.frame.closure, f.frame.self_val,
                                              f.frame.def_cls))
         if isinstance(f, Unknown):
@@ -1331,7 +1344,17 @@ class Interp:
         raise self.unsupported("bare slice", e, fr)
 
     def ex_Lambda(self, e: ast.Lambda, fr: Frame) -> Value:
-        return LambdaV(e, fr)
+        a = e.args
+        if a.vararg is not None or a.kwarg is not None:
+            raise self.unsupported("lambda with *args/**kwargs", e, fr)
+        pos = a.posonlyargs + a.args
+        defaults = {}
+        for prm, d in zip(pos[len(pos) - len(a.defaults):], a.defaults):
+            defaults[prm.arg] = self.eval(d, fr)           # defaults are evaluated once, at definition
+        for prm, d in zip(a.kwonlyargs, a.kw_defaults):
+            if d is not None:
+                defaults[prm.arg] = self.eval(d, fr)
+        return LambdaV(e, fr, defaults)
 
     def ex_Starred(self, e: ast.Starred, fr: Frame) -> Value:
         raise self.unsupported("starred expression", e, fr)
